@@ -826,10 +826,11 @@ static void run_transport(vh_rng_t *rng)
 static int profile_run(const char *profile, vh_rng_t *rng, uint64_t idx)
 {
   (void)idx;
-  if (!strcmp(profile, "hostile") || !strcmp(profile, "hostile-cancelcb")) {
+  if (!strcmp(profile, "hostile") || !strcmp(profile, "hostile-cancelcb") || !strcmp(profile, "hostile-setsrvcb")) {
     /* ares_cancel() from inside a completion callback is confined to its own sub-workload:
-     * it reaches known, listed defects so easily that it would starve everything else */
-    gen_profile_flags = strcmp(profile, "hostile") == 0 ? GP_NO_CANCEL_IN_CB : 0;
+     * it reaches known, listed defects so easily that it would starve everything else; likewise
+     * ares_set_servers*() from inside a completion callback */
+    gen_profile_flags = strcmp(profile, "hostile") == 0 ? GP_NO_CANCEL_IN_CB : strcmp(profile, "hostile-setsrvcb") == 0 ? (GP_NO_CANCEL_IN_CB | GP_SETSRV_IN_CB) : 0;
     gen_hostile(rng);
     run_generic(rng);
     hostile_fingerprint();
